@@ -472,3 +472,21 @@ Qed.
 Theorem defer_unlambda_func_var_refuted :
   exists c st1 st2, defer_unlambda_flags c = true /\ callee_eval st1 c <> callee_eval st2 c.
 Proof. exists (CFuncVar "cleanup"), st_a, st_b. split; [reflexivity|discriminate]. Qed.
+
+(* unslice needs its type filter: for a pointer to an array `p[:]` is a slice of the array, `p` is the pointer;
+   with a nil pointer the original panics and the replacement yields a value *)
+Theorem unslice_pointer_to_array_refuted :
+  exists en s, env_ok en /\ typeof s = Some TPArr /\ typeof (rw_lhs (rw_unslice s)) = Some TInts /\
+    eval en (rw_lhs (rw_unslice s)) = Some (RVal (VInts [1; 2; 3]%Z), []) /\
+    eval en (rw_rhs (rw_unslice s)) = Some (RVal (VPArr 3 (Some [1; 2; 3]%Z)), []).
+Proof.
+  exists (env_of [("pa", VPArr 3 (Some [1; 2; 3]%Z))] []), (EIdent "pa" TPArr).
+  split; [apply env_of_ok|]. vm_compute. repeat split.
+Qed.
+Theorem unslice_nil_pointer_to_array_refuted :
+  exists en s, env_ok en /\ typeof s = Some TPArr /\
+    eval en (rw_lhs (rw_unslice s)) = Some (RPanic, []) /\ eval en (rw_rhs (rw_unslice s)) = Some (RVal (VPArr 3 None), []).
+Proof.
+  exists (env_of [("pa", VPArr 3 None)] []), (EIdent "pa" TPArr).
+  split; [apply env_of_ok|]. vm_compute. repeat split.
+Qed.
